@@ -98,7 +98,7 @@ def groups_oracle(case: dict) -> Outcome:
             sub["mask"] = s["mask"][idx: idx + n]
             sub["gseed"] = s["gseed"] + 1000 * gi
             idx += n
-            grads = gen.step_grads(g["shapes"], sub, gen.DT[g["cfg"]["pdtype"]])
+            grads = gen.step_grads(g["shapes"], sub, A.pdts[gi])
             for pa, pb, gr in zip(A.params[gi], Bparams[gi], grads):
                 pa.grad = None if gr is None else gr.clone()
                 pb.grad = None if gr is None else gr.clone()
